@@ -4,6 +4,7 @@ import mirparse
 import srcinfo
 import interp as interp_mod
 import models
+import models2  # noqa: F401  (registers additional library models)
 
 
 class Engine:
